@@ -5,11 +5,13 @@
 # 2. applies it to /repo, runs the given checks (default: all 20 quick), records which
 #    raise VIOLATION, and undoes it (git -C /repo checkout -- .).
 set -u
+if [ "${1:-}" = "--cleanup" ]; then git -C /repo worktree remove --force /tmp/wt/verify; rm -f /tmp/wt/verify-*.patch; exit 0; fi
 id="$1"; src="$2"; shift 2
 checks="${*:-C01 C02 C03 C04 C05 C06 C07 C08 C09 C10 C11 C12 C13 C14 C15 C16 C17 C18 C19 C20}"
-W=/tmp/wt/verify-$id
-git -C /repo worktree remove --force $W >/dev/null 2>&1
-/verif/tools/mkwt.sh verify-$id >/dev/null || exit 2
+W=/tmp/wt/verify
+# one persistent scratch worktree (removed by `tools/try_seed.sh --cleanup`)
+if [ ! -d $W ]; then /verif/tools/mkwt.sh verify >/dev/null || exit 2; fi
+git -C $W checkout -q --detach $(git -C /repo rev-parse HEAD) 2>/dev/null; git -C $W checkout -q -- . ; rm -f $W/tests/seeded_demo.rs
 cp "$src/tests/seeded_demo.rs" $W/tests/seeded_demo.rs 2>/dev/null || cp "$src/seeded_demo.rs" $W/tests/seeded_demo.rs
 cd $W
 echo "== [1] demo on the unchanged tree"
@@ -24,8 +26,8 @@ cargo test --doc --offline 2>&1 | grep -E "^test result" | head -2
 echo "== [4] demo with the change (must fail)"
 cargo test --offline --test seeded_demo 2>&1 | grep -E "^test result|error\[" | head -3
 git diff -- src > /tmp/wt/verify-$id.patch
+git checkout -q -- . ; rm -f tests/seeded_demo.rs
 cd /
-git -C /repo worktree remove --force $W
 echo "== [5] checks against the change applied to /repo"
 git -C /repo apply /tmp/wt/verify-$id.patch || { echo "cannot apply to /repo"; exit 3; }
 caught=""
